@@ -65,13 +65,22 @@ func tmpRoot() string {
 	return "/verif/.work"
 }
 
-func newWorld(kind string) (*World, error) {
+func newWorld(kind string) (*World, error) { return newWorldAt(kind, "", "", false) }
+
+// newWorldAt creates (or, with reopen, reopens in this fresh process) the bucket of a program at a given directory.
+func newWorldAt(kind, dir, name string, reopen bool) (*World, error) {
 	w := &World{kind: kind, handles: map[string]*rosmar.Bucket{}, colls: map[string]*rosmar.Collection{},
 		collVia: map[string]string{}, scopes: map[string][2]string{}, feeds: map[string]*feedRec{}}
 	n := progCounter.Add(1)
 	w.name = fmt.Sprintf("p%d_%d", os.Getpid(), n)
+	if name != "" {
+		w.name = name
+	}
 	if kind == "disk" {
 		w.dir = filepath.Join(tmpRoot(), "buckets", w.name)
+		if dir != "" {
+			w.dir = dir
+		}
 		if err := os.MkdirAll(filepath.Dir(w.dir), 0o755); err != nil {
 			return nil, err
 		}
@@ -84,12 +93,20 @@ func newWorld(kind string) (*World, error) {
 	rosmar.VerifSetClock(func() uint64 { return w.physClk.Load() })
 	rosmar.VerifSetNow(func() uint32 { return w.nowSecs.Load() })
 	rosmar.VerifSetHook(w.hook)
-	b, err := rosmar.OpenBucket(w.url, w.name, rosmar.CreateNew)
+	mode := rosmar.CreateNew
+	if reopen {
+		mode = rosmar.ReOpenExisting
+	}
+	b, err := rosmar.OpenBucket(w.url, w.name, rosmar.OpenMode(mode))
 	if err != nil {
 		return nil, err
 	}
 	w.handles["h0"] = b
-	rosmar.VerifResetHLC(0)
+	if reopen {
+		rosmar.VerifStopExpiryTimer(b)
+	} else {
+		rosmar.VerifResetHLC(0)
+	}
 	w.scopes["c0"] = [2]string{"_default", "_default"}
 	w.scopes["c1"] = [2]string{"s1", "a"}
 	w.scopes["c2"] = [2]string{"s1", "b"}
